@@ -578,6 +578,7 @@ func runCacheFile(p *FilePlan, ch *simrt.Choices) *fileRun {
 	})
 	sim.OnIdle = func() bool { return done }
 	sim.IdleLimit = 2000 * 24 * time.Hour // silences of hours and days are part of the histories
+	sim.MaxSteps = 200000000              // every prefix of a file of tens of kilobytes is loaded and probed
 	sim.Run()
 	res.Steps = sim.Seq
 	res.Unfinished = !done
